@@ -141,6 +141,22 @@ Print Assumptions C18_graham_angular_structure.
      forall pts dist, distinctb pts = true -> 3 <= length pts -> (dist orders collinear points by distance from the pivot) ->
        exists out, graham_scan pts dist = Some out /\ graham_degenb pts out = true.                                   *)
 
+(* the judge's exact-integer evaluation of the graham_scan predicates is their real-number value on the same points *)
+Theorem C18_graham_gpb_exact : forall (zpts : list (Z * Z)) out,
+  @graham_gpb ZNum zpts out = @graham_gpb RNum (map IZRp zpts) out.
+Proof. exact graham_gpb_exact. Qed.
+Print Assumptions C18_graham_gpb_exact.
+
+Theorem C18_general_positionb_exact : forall zpts : list (Z * Z),
+  @general_positionb ZNum zpts = @general_positionb RNum (map IZRp zpts).
+Proof. exact general_positionb_exact. Qed.
+Print Assumptions C18_general_positionb_exact.
+
+Theorem C18_distinctb_exact : forall zpts : list (Z * Z),
+  @distinctb ZNum zpts = @distinctb RNum (map IZRp zpts).
+Proof. exact distinctb_exact. Qed.
+Print Assumptions C18_distinctb_exact.
+
 (* non-vacuity: concrete inputs meeting the hypotheses, evaluated (exact integers / doubles) *)
 Example C18_example_chain :
   let pts : list (@pt ZNum) := [(0, 3); (1, 1); (2, 2); (3, 0); (4, 0); (5, 4)]%Z in
